@@ -17,7 +17,7 @@ use virtio_drivers::transport::{DeviceType, Transport};
 
 pub const KINDS: [&str; 11] = ["blk", "console", "gpu", "input", "netraw", "net", "rng", "rtc", "socket", "sound", "9p"];
 pub const NET_QUEUE_SIZE: usize = 4;
-pub const NET_BUF_LEN: usize = 256;
+pub const NET_BUF_LEN: usize = 2048;
 
 pub fn device_type(kind: &str) -> DeviceType {
     match kind {
